@@ -1,0 +1,23 @@
+//go:build verif
+
+package types
+
+// Contracts for the deductive checker in /verif (comment-only; compiled only with -tags verif).
+// C07, up-front deduction: what the deduction decorators read from a message / its tx data (extends zz_contracts_c07_verif.go).
+
+/*@
+// value carried by the transaction (nil Amount counts as zero). ASSUMED refinement, by inspection of the Cost contracts proved
+// in zz_contracts_c07_verif.go: Cost() is a new big.Int holding feeCap x gasLimit + value for all three tx types.
+uf txd_value(td TxData) int
+func (TxData).Cost
+    params td
+    requires nonnil: td != nil
+    requires wf: txd_wf(td)
+    ensures value: result != nil && fresh(result) && *result == txd_feecap(td) * txd_gas(td) + txd_value(td)
+
+// the recorded sender as account address bytes: nil for an empty From, else the 20 bytes of the hex address
+func (*MsgEthereumTx).GetFrom
+    requires nonnil: msg != nil
+    ensures empty: msg.From == "" ==> len(result) == 0
+    ensures value: msg.From != "" ==> result == addr_bytes(hex_addr(msg.From))
+@*/
